@@ -24,6 +24,8 @@ EVID = os.path.join(HERE, "evidence")
 LOGS = os.path.join(HERE, "replays", "sanitizer")
 KNOWN = os.path.join(HERE, "known_findings.json")
 TRIPLE = "x86_64-unknown-linux-gnu"
+SHARDS = 12  # interpreter processes per stream (each single-threaded)
+PAR = 14     # of them at a time
 
 # streams that can run under each tool: Miri cannot spawn the sacrificial child of the C13 section
 # probe, and must not be asked to run the statistical / large-mesh streams
@@ -35,7 +37,7 @@ MIRI = {
     "C20": dict(scale=0.002, streams=["planar", "rejection"]),
 }
 ASAN = {
-    "C02": dict(scale=0.5), "C06": dict(scale=0.5), "C13": dict(scale=0.25), "C15": dict(scale=0.5), "C20": dict(scale=0.5),
+    "C02": dict(scale=2.0), "C06": dict(scale=4.0), "C13": dict(scale=1.0), "C15": dict(scale=2.0), "C20": dict(scale=2.0),
 }
 
 
@@ -91,40 +93,76 @@ def run_asan(pid, seed):
 
 
 def run_miri(pid, seed):
+    """build once, then SHARDS single-threaded interpreter processes in parallel (one per seed offset and stream)"""
     conf = MIRI[pid]
     env = env_for("miri", {"MIRIFLAGS": "-Zmiri-disable-isolation -Zmiri-ignore-leaks"})
     logf = os.path.join(LOGS, f"{pid}-miri-seed{seed}.log")
-    out = []
-    total = dict(evaluations=0, clause_judgements=0)
-    t0 = time.time()
-    streams = conf["streams"] or [None]
-    status = "clean"
-    reason = None
-    for st in streams:
-        cmd = ["cargo", "+nightly", "miri", "run", "--offline", "--quiet", "--bin", "vmon", "--", pid, "--tier", "quick", "--seed", str(seed), "--scale", str(conf["scale"]), "--threads", "1", "--known", KNOWN,
-               "--evidence", os.path.join(LOGS, f"{pid}-miri-evidence.json"), "--replay-dir", os.path.join(LOGS, "cases")]
-        if st:
-            cmd += ["--stream", st]
-        try:
-            p = subprocess.run(cmd, cwd=HARNESS, env=env, stdout=subprocess.PIPE, stderr=subprocess.STDOUT, text=True, timeout=2 * 3600)
-        except subprocess.TimeoutExpired:
-            status, reason = "inconclusive", f"time limit (stream {st})"
-            break
-        out.append(f"### stream {st}\n" + p.stdout)
-        ub = re.search(r"error: Undefined Behavior|error: unsupported operation|error: memory leaked|error: abnormal termination", p.stdout)
-        s = monitor_summary(p.stdout)
-        if s:
-            total["evaluations"] += s["evaluations"]
-            total["clause_judgements"] += s["clause_judgements"]
-        if ub and "Undefined Behavior" in ub.group(0):
-            status = "violated"
-            break
-        if ub or s is None:
-            status, reason = "inconclusive", f"Miri could not run stream {st}: " + (ub.group(0) if ub else f"exit {p.returncode}, no summary line")
-            break
     os.makedirs(LOGS, exist_ok=True)
-    open(logf, "w").write("\n".join(out))
-    res = dict(tool="miri", run_s=round(time.time() - t0, 1), scale=conf["scale"], streams=conf["streams"] or "all", monitor=total, status=status, log=os.path.relpath(logf, HERE))
+    t0 = time.time()
+    base = ["cargo", "+nightly", "miri", "run", "--offline", "--quiet", "--bin", "vmon", "--"]
+    b = subprocess.run(base + ["--list"], cwd=HARNESS, env=env, stdout=subprocess.PIPE, stderr=subprocess.STDOUT, text=True)
+    build_s = time.time() - t0
+    if b.returncode != 0 and "C01" not in b.stdout:
+        return dict(tool="miri", status="inconclusive", reason="Miri build / start failed: " + b.stdout[-600:])
+    streams = conf["streams"] or [None]
+    jobs = []
+    for j in range(SHARDS):
+        for st in streams:
+            sd = seed + 1000 * (j + 1)
+            cmd = base + [pid, "--tier", "quick", "--seed", str(sd), "--scale", str(conf["scale"]), "--threads", "1", "--known", KNOWN,
+                          "--evidence", os.path.join(LOGS, f"{pid}-miri-evidence-{j}.json"), "--replay-dir", os.path.join(LOGS, "cases")]
+            if st:
+                cmd += ["--stream", st]
+            jobs.append((j, st, sd, cmd))
+    t1 = time.time()
+    running = []
+    results = []
+    pending = list(jobs)
+    while pending or running:
+        while pending and len(running) < PAR:
+            j, st, sd, cmd = pending.pop(0)
+            out = open(os.path.join(LOGS, f"{pid}-miri-shard{j}-{st or 'all'}.out"), "w+")
+            running.append((j, st, sd, subprocess.Popen(cmd, cwd=HARNESS, env=env, stdout=out, stderr=subprocess.STDOUT, text=True), out, time.time()))
+        time.sleep(1.0)
+        still = []
+        for (j, st, sd, p, out, ts) in running:
+            if p.poll() is None:
+                if time.time() - ts > 2 * 3600:
+                    p.kill()
+                    results.append((j, st, sd, None, "time limit"))
+                else:
+                    still.append((j, st, sd, p, out, ts))
+                continue
+            out.seek(0)
+            results.append((j, st, sd, p.returncode, out.read()))
+            out.close()
+        running = still
+    total = dict(evaluations=0, clause_judgements=0)
+    status, reason = "clean", None
+    with open(logf, "w") as lf:
+        for (j, st, sd, rc, text) in sorted(results, key=lambda r: (r[0], str(r[1]))):
+            lf.write(f"### shard {j} stream {st} seed {sd} exit {rc}\n{text}\n")
+            if rc is None:
+                if status == "clean":
+                    status, reason = "inconclusive", f"time limit (shard {j}, stream {st})"
+                continue
+            ub = re.search(r"error: Undefined Behavior", text)
+            other = re.search(r"error: unsupported operation|error: abnormal termination|error: the evaluated program", text)
+            sm = monitor_summary(text)
+            if sm:
+                total["evaluations"] += sm["evaluations"]
+                total["clause_judgements"] += sm["clause_judgements"]
+            if ub:
+                status, reason = "violated", f"Undefined Behavior reported in shard {j}, stream {st}"
+            elif (other or sm is None) and status == "clean":
+                status, reason = "inconclusive", f"Miri could not run shard {j}, stream {st}: " + (other.group(0) if other else f"exit {rc}, no summary line")
+    for j in range(SHARDS):
+        for st in streams:
+            try:
+                os.remove(os.path.join(LOGS, f"{pid}-miri-shard{j}-{st or 'all'}.out"))
+            except OSError:
+                pass
+    res = dict(tool="miri", build_s=round(build_s, 1), run_s=round(time.time() - t1, 1), scale=conf["scale"], shards=SHARDS, streams=conf["streams"] or "all", monitor=total, status=status, log=os.path.relpath(logf, HERE))
     if reason:
         res["reason"] = reason
     return res
